@@ -366,6 +366,22 @@ func c16reconcile(t *testing.T, run *h.Run, spec *v1.ExtendedDaemonSetSpec, mode
 		time.Sleep(61 * time.Second)
 		all()
 		all()
+		// the user replaces the object by the original (undefaulted) manifest; the replica sets are reconciled BEFORE the
+		// ExtendedDaemonSet controller has defaulted it again
+		if err := in.Get(ctx, types.NamespacedName{Namespace: "ns", Name: "foo"}, e); err == nil {
+			e.Spec.Strategy = *spec.Strategy.DeepCopy()
+			_ = in.Update(ctx, e)
+			erss := &v1.ExtendedDaemonSetReplicaSetList{}
+			_ = in.List(ctx, erss)
+			for _, r := range erss.Items {
+				report("R_ers(parent replaced by its undefaulted manifest)", l.ReconcileERS(r.Namespace, r.Name))
+			}
+			time.Sleep(11 * time.Second)
+			for _, r := range erss.Items {
+				report("R_ers(parent replaced by its undefaulted manifest)", l.ReconcileERS(r.Namespace, r.Name))
+			}
+			all()
+		}
 	})
 	run.Count("reconciles", int64(steps))
 }
